@@ -17,6 +17,7 @@ LEVEL = "exploration"
 SHARDS = {"quick": 8, "thorough": 16}
 TIMEOUT = {"quick": 900, "thorough": 7200}
 REQUIRED = {"request_size": 50, "kernel_request_size": 5, "prng_reset": 50, "tape_replay": 50, "bit_variation": 5, "no_repeat": 5}
+ANCHORS = ['bip39:mnemonic_from_entropy_bits', 'base_wallet:BaseWallet.new_wallet', 'base_wallet:BaseWallet.from_entropy_bits']
 RULE = ("histories of consecutive new_wallet / mnemonic_from_entropy_bits calls over all five lengths in one process, "
         "interleaved with random.seed / random.random noise and wall-clock changes; four observers: in-process request size "
         "(os.urandom / random._urandom interposer), kernel request size (strace: getrandom + reads of /dev/(u)random between "
